@@ -233,9 +233,13 @@ fn xdriver() -> (usize, Vec<String>) {
     for who in [One, Two] {
         let game = Game::from_root(p(who, "x", (0..3).map(|i| (names[i], t(pays[i]))).collect())).unwrap();
         let sign = if matches!(who, One) { 1.0 } else { -1.0 };
-        for (pname, al, be, ga) in [("vanilla", f64::INFINITY, f64::INFINITY, 0.0), ("g1", f64::INFINITY, 0.0, 1.0), ("g2", 0.0, f64::NEG_INFINITY, 2.0)] {
+        for (pname, al, be, ga) in [("vanilla", f64::INFINITY, f64::INFINITY, 0.0), ("g1", f64::INFINITY, 0.0, 1.0), ("g2", 0.0, f64::NEG_INFINITY, 2.0), ("finite", 1.5, 0.5, 2.0), ("finite2", 3.0, 1.0, 0.5)] {
+          for method in [SolveMethod::External, SolveMethod::Full] {
             let params = RegretParams::new(al, be, ga, 0.0);
-            let disc = |x: f64| if x == f64::INFINITY { 1.0 } else if x == 0.0 { 0.5 } else { 0.0 };
+            // documented factor t^x / (t^x + 1), with the limits 0, 1/2, 1
+            let disc_t = |x: f64, tt: u64| -> f64 {
+                if x == f64::INFINITY { 1.0 } else if x == 0.0 { 0.5 } else if x == f64::NEG_INFINITY { 0.0 } else { let pw = (tt as f64).powf(x); pw / (pw + 1.0) }
+            };
             // textbook
             let mut reg = [0.0f64; 3];
             let mut avg = [0.0f64; 3];
@@ -245,7 +249,8 @@ fn xdriver() -> (usize, Vec<String>) {
                 // the deciding player's average receives sigma_t with weight t^gamma
                 let w = (tt as f64).powf(ga);
                 let v: f64 = (0..3).map(|i| sigma[i] * sign * pays[i]).sum();
-                let first = matches!(who, One);
+                // in the unsampled method both averages are fed during the traversal, before the update
+                let first = matches!(who, One) && matches!(method, SolveMethod::External);
                 for i in 0..3 {
                     // player two's average is fed during player one's pass, before its own update;
                     // player one's average is fed during player two's pass, i.e. after its update
@@ -264,24 +269,27 @@ fn xdriver() -> (usize, Vec<String>) {
                     }
                 }
                 for r in reg.iter_mut() {
-                    if *r > 0.0 { *r *= disc(al) } else if *r < 0.0 { *r *= disc(be) }
+                    if *r > 0.0 { *r *= disc_t(al, tt) } else if *r < 0.0 { *r *= disc_t(be, tt) }
                 }
                 let tot: f64 = avg.iter().sum();
                 expect.push([avg[0] / tot, avg[1] / tot, avg[2] / tot]);
             }
             for tt in 1..=6u64 {
                 runs += 1;
-                let (s, _) = game.solve(SolveMethod::External, tt, 0.0, 1, Some(params)).unwrap();
+                let (s, _) = game.solve(method, tt, 0.0, 1, Some(params)).unwrap();
                 let named = probs_of(&s);
                 let got: Vec<f64> = names.iter().map(|n| named.iter().find(|(_, a, _)| a == n).map(|x| x.2).unwrap_or(0.0)).collect();
                 let e = expect[(tt - 1) as usize];
                 if (0..3).any(|i| (got[i] - e[i]).abs() > 1e-9) {
                     if bad.len() < 5 {
-                        bad.push(format!("external, only player {who:?} decides, params {pname}, T={tt}: strategy {got:?} but the textbook iterates give {e:?}"));
+                        bad.push(format!("{method:?}, only player {who:?} decides, params {pname}, T={tt}: strategy {got:?} but the textbook iterates give {e:?}"));
                     } else {
                         bad.push(String::new());
                     }
                 }
+            }
+            if matches!(method, SolveMethod::Full) {
+                continue;
             }
             // early termination against prefix runs
             let mut pre = Vec::new();
@@ -317,8 +325,49 @@ fn xdriver() -> (usize, Vec<String>) {
                     }
                 }
             }
+          }
         }
     }
+    (runs, bad)
+}
+
+/// Game::solve dispatch seen from outside: thread-count overflow error, default parameters, the
+/// unsampled method is deterministic on a game with chance nodes (it never reaches a sampling solver),
+/// one thread never errors.
+fn gs() -> (usize, Vec<String>) {
+    let mut bad = Vec::new();
+    let mut runs = 0usize;
+    for (gname, game) in family(true).into_iter().take(8) {
+        runs += 1;
+        match game.solve(SolveMethod::Full, 1, 0.0, usize::MAX / 3 + 1, None) {
+            Err(cfr::SolveError::ThreadOverflow) => {}
+            Err(e) => bad.push(format!("{gname}: 3 x threads overflows but the error is {e:?}")),
+            Ok(_) => bad.push(format!("{gname}: 3 x threads overflows but solve returned Ok")),
+        }
+        for method in [SolveMethod::Full, SolveMethod::Sampled, SolveMethod::External] {
+            runs += 1;
+            if game.solve(method, 3, 0.0, 1, None).is_err() {
+                bad.push(format!("{gname}: {method:?} with one thread returned an error"));
+            }
+        }
+        runs += 1;
+        let a = probs_of(&game.solve(SolveMethod::Full, 6, 0.0, 1, None).unwrap().0);
+        let b = probs_of(&game.solve(SolveMethod::Full, 6, 0.0, 1, Some(RegretParams::default())).unwrap().0);
+        let c = probs_of(&game.solve(SolveMethod::Full, 6, 0.0, 1, Some(RegretParams::dcfr())).unwrap().0);
+        if max_diff(&a, &b) > 0.0 || max_diff(&a, &c) > 0.0 {
+            bad.push(format!("{gname}: omitted parameters do not behave like the documented default (dcfr)"));
+        }
+        let d = probs_of(&game.solve(SolveMethod::Full, 6, 0.0, 1, None).unwrap().0);
+        if max_diff(&a, &d) > 0.0 {
+            bad.push(format!("{gname}: two unsampled solves differ (a sampling solver was reached)"));
+        }
+        let v = probs_of(&game.solve(SolveMethod::Full, 6, 0.0, 1, Some(RegretParams::vanilla())).unwrap().0);
+        let t7 = probs_of(&game.solve(SolveMethod::Full, 7, 0.0, 1, None).unwrap().0);
+        if max_diff(&a, &v) == 0.0 && max_diff(&a, &t7) == 0.0 {
+            bad.push(format!("{gname}: parameters and budget have no effect"));
+        }
+    }
+    bad.truncate(5);
     (runs, bad)
 }
 
@@ -332,6 +381,7 @@ fn main() {
     let (runs, bad) = match which {
         "c09" => c09(),
         "xdriver" => xdriver(),
+        "gs" => gs(),
         "c06" => threads(&[(SolveMethod::Full, true), (SolveMethod::Full, false)]),
         "c07" => {
             let (r1, mut b1) = threads(&[(SolveMethod::Sampled, false)]);
